@@ -138,6 +138,26 @@ def rule_init(ctx, rep, only=None):
                         fp = _field_path_of(d, t, data_name)
                         if fp is not None:
                             writes.setdefault(fp, []).append((bi, "copy", t2))
+                    elif c in F.bodies and t2["args"]:
+                        # a private helper that performs the write (`unsafe fn write_header(inner, header)`): its destination,
+                        # expressed in the caller's terms, on every returning path of the helper
+                        cb = F.body(c)
+                        CB = cfg.Body(cb)
+                        cdom = CB.dominators()
+                        rets = [i for i, x in enumerate(cb["blocks"]) if x["term"]["k"] == "return"]
+                        cargs = [nobb(symx.expr(F, B, a)) for a in t2["args"]]
+                        for bj, t3 in CB.calls():
+                            c3 = atomics.callee_of(t3)
+                            if c3 in ("core::ptr::write", "<*mut T>::write"):
+                                dst, how = t3["args"][0], "write"
+                            elif copy_args(t3) is not None:
+                                dst, how = copy_args(t3)[1], "copy"
+                            else:
+                                continue
+                            d = nobb(symx.subst_args(nobb(symx.expr(F, CB, dst)), cargs))
+                            fp = _field_path_of(d, t, data_name)
+                            if fp is not None and rets and all(bj in cdom.get(r, set()) for r in rets):
+                                writes.setdefault(fp, []).append((bi, "helper-" + how, t2, d))
                 # dropping assignments into the fresh block
                 for bi, bl in enumerate(b["blocks"]):
                     for s in bl["stmts"]:
@@ -156,8 +176,9 @@ def rule_init(ctx, rep, only=None):
                         continue
                     good = True
                     why = None
-                    for wbi, how, t2 in ws:
-                        e0 = symx.expr(F, B, t2["args"][0] if how == "write" else copy_args(t2)[1])
+                    for w in ws:
+                        wbi, how, t2 = w[0], w[1], w[2]
+                        e0 = w[3] if len(w) > 3 else symx.expr(F, B, t2["args"][0] if how == "write" else copy_args(t2)[1])
                         in_loop = _mentions(e0, "induction") or _in_cycle(B, wbi)
                         for mb in make_bbs:
                             if in_loop:
@@ -433,6 +454,11 @@ def rule_exact(ctx, rep):
                 ok, why = False, "no comparison of the size-hint bounds found"
             else:
                 bi, tt, c, a0, a1 = sw
+                if a1[0] == "agg" and a0[0] == "tfield":
+                    a0, a1 = a1, a0  # `upper == Some(lower)`
+                if c["call"].get("callee_name") == "ne":
+                    c = dict(c)
+                    c["neg"] = not c["neg"]  # `Some(lower) != upper` with the arms swapped
                 hints = []
                 find_calls(a0, "size_hint", hints)
                 find_calls(a1, "size_hint", hints)
@@ -458,6 +484,11 @@ def rule_exact(ctx, rep):
             if b.get("name") == "len" and (imp.get("trait") or "").endswith("ExactSizeIterator") and F.ty(imp["self_ty"]).get("local"):
                 B = cfg.Body(b)
                 e = nobb(symx.local_expr(F, B, 0, 0))
+                for _ in range(3):  # through private helpers (`fn lower_bound_checked(&self) -> usize`)
+                    r = symx.inline_call(F, e) if e[0] == "call" else None
+                    if r is None:
+                        break
+                    e = nobb(r)
                 if e[0] == "tfield" and e[2] == 0 and e[1][0] == "call" and e[1][2] == "size_hint":
                     rep.ok("R-EXACT", b["key"], cfg=tag)
                 else:
@@ -508,6 +539,7 @@ def _ctor_calls(F, E, e, out):
 
 
 def run(ctx, rep):
+    balance.rule_parked(ctx, rep)  # a parked caller-supplied value must be handed over before anything can unwind
     rule_init(ctx, rep)
     rule_lenflow(ctx, rep)
     rule_moveonce(ctx, rep)
